@@ -141,6 +141,23 @@ class SymbolNode(NodeProtocol):
         return f"SymbolNode({self.symbol_name}, {self.expression})"
 
 
+class MacroArgumentNode(SymbolNode):
+    """A macro argument that could not be evaluated at expansion time (forward label ...).
+    It is bound in the scope of the macro application but evaluated in the scope of the call site."""
+
+    def pc_after(self, current_pc: Address) -> Address:
+        assert isinstance(self.expression, ExpressionAstNode)
+        application_scope = self.resolver.current_scope
+        if application_scope.parent is not None:
+            self.resolver.current_scope = application_scope.parent
+        try:
+            value = eval_expression(self.expression, self.resolver)
+        finally:
+            self.resolver.current_scope = application_scope
+        application_scope.add_symbol(self.symbol_name, value)
+        return current_pc
+
+
 class BinaryNode(NodeProtocol):
     def __init__(self, path: str, resolver: Resolver) -> None:
         with open(path, "rb") as binary_file:
